@@ -174,6 +174,18 @@ def long_strings():
     yield 'a-b.c_d:e;f' * 6
 
 
+def mixed_quote_strings():
+    """the quote is chosen for the whole string but every piece is escaped on its own: pieces whose own repr would
+    pick the other quote, next to backslashes, are where the re-escaping branches run"""
+    tails = ["it's", "\\'x", "'\\", "\\\\'", "a'b'c", "'", "''", "\\n'", "é'"]
+    heads = ['say "hi"', '"', '""', '\\"q\\"', 'x"y']
+    for h in heads:
+        for t in tails:
+            yield (h + ' ') * 6 + 'middle words here ' + (t + ' ') * 4 + 'tail words to make it long enough'
+            yield (t + ' ') * 5 + 'and then ' + (h + ' ') * 7 + 'zzzz ' * 6
+            yield 'k' * 12 + h + 'm' * 14 + t + 'n' * 15 + t + 'p' * 11 + h
+
+
 WIDTHS_QUICK = [1, 2, 3, 4, 6, 8, 10, 12, 14, 17, 20, 24, 40, 79]
 
 
@@ -202,7 +214,7 @@ def run_shard(sh):
                 drive_splitter(sh, s)
             if idx % 300 == 0:
                 sh.sample({'value': repr(s), 'contexts': CONTEXTS, 'widths': widths})
-    for text in long_strings():
+    for text in itertools.chain(long_strings(), mixed_quote_strings()):
         for as_bytes in (False, True):
             idx += 1
             if not sh.mine(idx):
